@@ -216,6 +216,22 @@ Theorem C01_live_model_meets_spec : forall elig st op,
 Proof. exact lstep_meets_lspec. Qed.
 Print Assumptions C01_live_model_meets_spec.
 
+(* ---- copies.  [Copy o how true]: copy.copy(o) / copy.deepcopy(o) / a pickle round trip of o produces an object
+   (index n).  It is another handle on the same incarnation (Properties/C02.v: C02_copy_binding), so every theorem
+   above holds for it.  Spelled out for the dangerous case -- the original is stale (its process gone, nobody has
+   probed since) when the copy is made: the copy is not running, equals its original, and every signal/setter on it
+   raises NoSuchProcess without a system call when the PID has a new owner *)
+Theorem C01_copy_of_stale_object : forall h o hw n s,
+  wf_hist h = true -> outcome_of (run h) (EC (Copy o hw true)) = Val (RObj n) ->
+  alive (run h) (g_inc (run h) o) = false ->
+  let w' := run (h ++ [EC (Copy o hw true)]) in
+  outcome_of w' (EC (IsRunning n)) = Val (RBool false)
+  /\ outcome_of w' (EC (EqC n o)) = Val (RBool true)
+  /\ (owner (run h) (obj_pid (run h) o) <> None ->
+      outcome_of w' (EC (Set_ n s)) = Exc NoSuchProcess /\ effects_of w' (EC (Set_ n s)) = []).
+Proof. exact copy_of_stale_object. Qed.
+Print Assumptions C01_copy_of_stale_object.
+
 (* ---- interpreter modes (python -O / -OO / PYTHONOPTIMIZE): every assert statement, and every call made inside
    one, vanishes.  [guard_asserts] (coq/Gen/C01_Tables.v) is generated by ast from the tree under test on every run:
    all assert statements in the functions on the path of the guard (_raise_if_pid_reused, is_running, _send_signal,
